@@ -990,3 +990,47 @@ impl Ring {
         self.slots[v as usize] = h;
     }
 }
+
+// ---------------------------------------------------------------------------------------------------------------
+// E-count witnesses: a stored count mirrors the length of a sibling Vec
+// ---------------------------------------------------------------------------------------------------------------
+pub struct CountHeader {
+    pub num: u32,
+}
+
+pub struct CountedBlock {
+    pub header: CountHeader,
+    pub items: Vec<u32>,
+}
+
+impl CountedBlock {
+    pub fn counted_add_ok(&mut self, v: u32) {
+        self.items.push(v);
+        self.header.num = self.items.len() as u32;
+    }
+}
+
+pub fn counted_remove_bad(blocks: &mut [CountedBlock], v: u32) -> bool {
+    let mut removed = false;
+    for b in blocks.iter_mut() {
+        let before = b.items.len();
+        b.items.retain(|x| *x != v);
+        if b.items.len() < before {
+            removed = true;
+        }
+    }
+    removed
+}
+
+pub fn counted_remove_ok(blocks: &mut [CountedBlock], v: u32) -> bool {
+    let mut removed = false;
+    for b in blocks.iter_mut() {
+        let before = b.items.len();
+        b.items.retain(|x| *x != v);
+        if b.items.len() < before {
+            removed = true;
+            b.header.num = b.items.len() as u32;
+        }
+    }
+    removed
+}
